@@ -142,6 +142,44 @@ def c12_unit(unit):
     return out.pack()
 
 
+def c12_list_unit(unit):
+    """ts given as a list/tuple must behave exactly like the same times given as a tensor of y0's dtype: same
+    Brownian queries, torch.equal outputs - at times that are NOT exactly representable in float32, for float32 and
+    float64 states, under both values of torch's global default dtype."""
+    out = Out()
+    cell = tuple(unit['cell'])
+    st, nt, method, opts = cell
+    old_default = torch.get_default_dtype()
+    try:
+        for default, dtype_name in itertools.product((torch.float32, torch.float64), ('float64', 'float32')):
+            torch.set_default_dtype(default)
+            dtype = getattr(torch, dtype_name)
+            for tsl, dt in (([0., 0.1, 0.37, 0.7], 0.1), ([0.05, 0.33, 0.9], 0.3), ((0., 0.7), 0.17)):
+                with torch.no_grad():
+                    prog, y0, bm = cell_setup(cell, dtype, entropy=unit['entropy'])
+                    r1, r2 = seams.RecordingBM(bm), seams.RecordingBM(bm)
+                    a = torchsde.sdeint(prog, y0, torch.tensor(list(tsl), dtype=dtype), bm=r1, method=method, dt=dt,
+                                        options=dict(opts))
+                    b = torchsde.sdeint(prog, y0, tsl, bm=r2, method=method, dt=dt, options=dict(opts))
+                out.count('executions', 2)
+                label = dict(cell=zoo.cell_name(cell), dtype=dtype_name, default_dtype=str(default), ts=list(tsl), dt=dt,
+                             ts_container=type(tsl).__name__)
+                if b.dtype != y0.dtype or tuple(b.shape) != (len(tsl),) + tuple(y0.shape):
+                    out.violation(dict(kind='shape', cell=zoo.cell_name(cell), dtype=dtype_name), f"{label}: result "
+                                  f"dtype/shape {b.dtype} {tuple(b.shape)}", dict(engine='B-c12-list', **label))
+                elif r1.log != r2.log or not _eq(a, b):
+                    out.violation(dict(kind='list_vs_tensor', cell=zoo.cell_name(cell), dtype=dtype_name,
+                                       default_dtype=str(default)),
+                                  f"{label}: ts as {type(tsl).__name__} and ts as a tensor of y0's dtype give different "
+                                  f"results (max diff {float((a - b).abs().max())}; first queries {r2.log[:2]} vs "
+                                  f"{r1.log[:2]})", dict(engine='B-c12-list', entropy=unit['entropy'], **label))
+                else:
+                    out.keys.add(('list', zoo.cell_name(cell), dtype_name, str(default), tuple(tsl), dt))
+    finally:
+        torch.set_default_dtype(old_default)
+    return out.pack()
+
+
 # ---------------------------------------------------------------------------------------------------
 # C13
 # ---------------------------------------------------------------------------------------------------
@@ -154,6 +192,11 @@ def c13_unit(unit):
     dt = 1.0 / N if N in (2, 4, 8, 16) else 1.0 / 8
     T = N * dt
     pts = [k * dt for k in range(N + 1)]
+    if unit.get('tail'):
+        # the final time is off the step grid (only restart points have to be on it): the last step is clipped
+        pts.append(N * dt + unit['tail'] * dt)
+        T = pts[-1]
+    NP = len(pts) - 1  # number of intervals between consecutive points; restart candidates are pts[1:NP]
     dtype = torch.float64
     with torch.no_grad():
         # many batch rows: a rounding-level discrepancy in the restart state must have a chance to show in some row
@@ -162,8 +205,8 @@ def c13_unit(unit):
         ys_one, extra_one = torchsde.sdeint(prog, y0, ts_all, bm=bm, method=method, dt=dt, options=dict(opts),
                                             extra=True)
         for r in range(0, N):
-            for restarts in itertools.combinations(range(1, N), r):
-                bounds = [0] + list(restarts) + [N]
+            for restarts in itertools.combinations(range(1, N if not unit.get('tail') else N + 1), r):
+                bounds = [0] + list(restarts) + [NP]
                 y = y0
                 extra = None
                 ok = True
@@ -193,7 +236,7 @@ def c13_unit(unit):
                                            restarts=list(restarts), entropy=unit['entropy']))
                 out.count('executions')
                 if restarts:
-                    out.keys.add((zoo.cell_name(cell), N, restarts, unit.get('dense', True)))
+                    out.keys.add((zoo.cell_name(cell), N, restarts, unit.get('dense', True), unit.get('tail', 0)))
         out.sample(dict(cell=zoo.cell_name(cell), N=N, dt=dt, restart_sets=2 ** (N - 1),
                         extra_state_tensors=len(extra_one)), limit=1)
     return out.pack()
@@ -298,9 +341,18 @@ def check_adaptive_run(cell, ts, dt, dt_min, run, out, label, real_error=False):
                     break
                 out.count('rejected_trials')
             else:
-                # accepted despite error > 1: only legitimate when the controller has reached dt_min
+                # accepted despite error > 1: only legitimate when the controller has reached dt_min, i.e. when the
+                # retry would have been at dt_min: the controller shrinks a rejected step by at least `facmin`
+                # (documented default of update_step_size), so the accepted trial cannot be longer than dt_min / facmin
                 from torchsde._core import adaptive_stepping
+                import inspect
+                facmin = inspect.signature(adaptive_stepping.update_step_size).parameters['facmin'].default
                 out.count('accepted_at_dt_min')
+                if (b - a) > dt_min / facmin * (1 + 1e-9):
+                    bad.append(('accept_rule', f"trial {i} [{a},{b}] of length {b - a} has error {e} > 1 and was "
+                                f"accepted although a retry shrunk by facmin={facmin} would still be longer than "
+                                f"dt_min={dt_min} (the controller had not reached dt_min)"))
+                    break
                 if nxt is not None and (nxt[1] - nxt[0]) > dt_min * (1 + 1e-9) and nxt[1] != T1:
                     bad.append(('accept_rule', f"trial {i} [{a},{b}] has error {e} > 1, was accepted, yet the next "
                                 f"trial has length {nxt[1] - nxt[0]} > dt_min"))
